@@ -87,8 +87,23 @@ def Val.opd? : Val → Option Opd
   | .int _ v => some (.i v) | .uint _ v => some (.u v) | .float _ x => some (.f x)
   | .str x => some (.s x) | .bool x => some (.b x) | _ => none
 
-def f64OfInt (i : Int) : UInt64 := (Float.ofInt i).toBits
-def f64OfNat (n : Nat) : UInt64 := (Float.ofNat n).toBits
+/-- `float64(n)` for a natural number: round to nearest, ties to even, in integer arithmetic -/
+def f64OfNat (n : Nat) : UInt64 :=
+  if n == 0 then 0 else
+  let e := n.log2
+  if e ≤ 52 then
+    UInt64.ofNat ((e + 1023) * 2^52 + (n * 2^(52 - e) - 2^52))
+  else
+    let sh := e - 52
+    let q := n / 2^sh
+    let rem := n % 2^sh
+    let half := 2^(sh - 1)
+    let q' := if rem > half || (rem == half && q % 2 == 1) then q + 1 else q
+    if q' == 2^53 then UInt64.ofNat ((e + 1 + 1023) * 2^52)
+    else UInt64.ofNat ((e + 1023) * 2^52 + (q' - 2^52))
+
+def f64OfInt (i : Int) : UInt64 :=
+  if i < 0 then UInt64.ofNat (2^63 + (f64OfNat i.natAbs).toNat) else f64OfNat i.natAbs
 
 /-- Go leaves float→integer conversion of NaN and out-of-range values implementation-defined:
     the model declines (`none` → `unmodelled`) -/
@@ -155,18 +170,30 @@ def primU (p : Prim) (a b : Nat) : R Val :=
   | .ne => .ok (.bool (decide (a ≠ b)))
   | _ => unmodelled "prim on uint64"
 
+-- IEEE-754 binary64 comparison on bit patterns, in integer arithmetic (kernel-reducible) ----------
+
+def f64IsNaN (b : UInt64) : Bool := (b.toNat / 2^52) % 2048 == 2047 && b.toNat % 2^52 != 0
+
+/-- order key of a non-NaN double: sign-magnitude read as an integer (−0 and +0 both 0) -/
+def f64Key (b : UInt64) : Int :=
+  let m : Nat := b.toNat % 2^63
+  if b.toNat ≥ 2^63 then -(m : Int) else (m : Int)
+
+def fltLt (a b : UInt64) : Bool := !f64IsNaN a && !f64IsNaN b && decide (f64Key a < f64Key b)
+def fltEq (a b : UInt64) : Bool := !f64IsNaN a && !f64IsNaN b && decide (f64Key a = f64Key b)
+
 def primF (p : Prim) (a b : UInt64) : R Val :=
   match p with
   | .mul => .ok (.float .f64 (fbin (· * ·) a b))
   | .add => .ok (.float .f64 (fbin (· + ·) a b))
   | .sub => .ok (.float .f64 (fbin (· - ·) a b))
   | .quo => .ok (.float .f64 (fbin (· / ·) a b))
-  | .gt => .ok (.bool (fcmp (· > ·) a b))
-  | .lt => .ok (.bool (fcmp (· < ·) a b))
-  | .ge => .ok (.bool (fcmp (· ≥ ·) a b))
-  | .le => .ok (.bool (fcmp (· ≤ ·) a b))
-  | .eq => .ok (.bool (fcmp (· == ·) a b))
-  | .ne => .ok (.bool (fcmp (· != ·) a b))
+  | .gt => .ok (.bool (fltLt b a))
+  | .lt => .ok (.bool (fltLt a b))
+  | .ge => .ok (.bool (fltLt b a || fltEq a b))
+  | .le => .ok (.bool (fltLt a b || fltEq a b))
+  | .eq => .ok (.bool (fltEq a b))
+  | .ne => .ok (.bool (!fltEq a b))
   | _ => unmodelled "prim on float64"
 
 def primS (p : Prim) (a b : String) : R Val :=
